@@ -84,7 +84,7 @@ theorem C20_unparse_go (f : Fmt) (h : FmtWF f) :
     ∃ g, goParse ((unParse f).filter (fun c => !isDelim c)) = some g ∧ g.verb = f.letter ∧ g.wid = f.width ∧
       g.prec = f.prec := goParse_unParse f h
 
-example : unParse (parsed "%#- [12.3g") = "% -#12.3g".toList ∧ unParse (withoutWidth (parsed "%#-<12.3g")) = "%<.3g".toList ∧
+example : unParse (parsed "%#- [12.3g") = "% -[#12.3g".toList ∧ unParse (withoutWidth (parsed "%#-<12.3g")) = "%<.3g".toList ∧
     goFormat (withoutWidth (parsed "%#-<12.3g")) = "%.3g".toList := by decide +kernel
 
 example : Directive "%-#08.3x".toList
